@@ -56,6 +56,7 @@ ep_hash(const tp_ep *ep, uint64_t h)
 	h = vf_fnv(&ep->tx_done, sizeof ep->tx_done, h);
 	h = vf_fnv(&ep->rx_done, sizeof ep->rx_done, h);
 	h = vf_fnv(&ep->closed_seen, sizeof ep->closed_seen, h);
+	h = vf_fnv(&ep->pending_ack, sizeof ep->pending_ack, h);
 	return h;
 }
 
@@ -97,26 +98,46 @@ visit(uint64_t h, int remaining)
 	return 1;   /* table crowded: explore anyway */
 }
 
-/* action alphabet: 12 per endpoint */
-#define NACT 24
-static const char *act_names[12] = {
+/* action alphabet: 14 per endpoint (the last two: completion-style output - bytes go to the transport now, the
+ * acknowledgement reaches the engine later, possibly after other calls) */
+#define NACT 28
+#define NA1 14
+static const char *act_names[NA1] = {
 	"sendrec_ack(1)", "sendrec_ack(all)", "recvrec_ack(1)", "recvrec_ack(all)",
 	"sendapp_ack(1)", "sendapp_ack(all)", "recvapp_ack(1)", "recvapp_ack(all)",
-	"flush(0)", "flush(1)", "close", "renegotiate"
+	"flush(0)", "flush(1)", "close", "renegotiate", "sendrec_take(all)", "sendrec_ack(taken)"
 };
-static long long act_count[12];
+static long long act_count[NA1];
 
 /* returns 1 if the action was applicable (and was applied) */
 static int
 apply(int a)
 {
-	tp_ep *ep = a < 12 ? &W.c : &W.s;
-	tp_fifo *out = a < 12 ? &W.c2s : &W.s2c;
-	tp_fifo *in = a < 12 ? &W.s2c : &W.c2s;
+	tp_ep *ep = a < NA1 ? &W.c : &W.s;
+	tp_fifo *out = a < NA1 ? &W.c2s : &W.s2c;
+	tp_fifo *in = a < NA1 ? &W.s2c : &W.c2s;
 	size_t len;
-	int k = a % 12;
+	int k = a % NA1;
 	switch (k) {
+	case 12: {
+		unsigned char *b;
+		/* only with separate output memory: with a shared buffer nothing else can happen before the ack */
+		if (ep->cfg.layout == TP_LAYOUT_MONO || ep->pending_ack) return 0;
+		b = br_ssl_engine_sendrec_buf(ep->eng, &len);
+		if (b == NULL) return 0;
+		tp_fifo_put(out, b, len);
+		ep->bytes_out += len;
+		ep->pending_ack = len;
+		break;
+	}
+	case 13:
+		if (!ep->pending_ack) return 0;
+		len = ep->pending_ack; ep->pending_ack = 0;
+		br_ssl_engine_sendrec_ack(ep->eng, len);
+		tp_calls ++; tp_check(ep, "sendrec_ack (deferred)");
+		break;
 	case 0: case 1:
+		if (ep->pending_ack) return 0;       /* those bytes are already with the transport */
 		if (!br_ssl_engine_sendrec_buf(ep->eng, &len)) return 0;
 		if (k == 0 && len == 1) return 0;   /* same as "all" */
 		tp_act_sendrec(ep, out, k == 0 ? 1 : len);
@@ -166,7 +187,7 @@ explore(int remaining)
 	world_take(&ws);
 	for (a = 0; a < NACT; a ++) {
 		uint64_t h;
-		snprintf(path + pl, sizeof path - pl, " %c.%s", a < 12 ? 'c' : 's', act_names[a % 12]);
+		snprintf(path + pl, sizeof path - pl, " %c.%s", a < NA1 ? 'c' : 's', act_names[a % NA1]);
 		snprintf(tp_case, sizeof tp_case, "%s%s", case_start, path);
 		if (!apply(a)) { path[pl] = 0; continue; }
 		n_trans ++;
@@ -348,7 +369,7 @@ main(int argc, char **argv)
 	}
 	{
 		int k;
-		for (k = 0; k < 12; k ++) {
+		for (k = 0; k < NA1; k ++) {
 			char nm[64];
 			snprintf(nm, sizeof nm, "act_%s", act_names[k]);
 			vf_stat(nm, act_count[k]);
